@@ -30,9 +30,15 @@ NAMES = ['EQ:A', 'EQ:AB', 'EQ:A_1', 'EQ:B', 'EQ:Z9']
 
 def run_program(case):
     q = load()
-    port = q.Portfolio(T0, portfolio_id='p')
-    if case['cash'] > 0:
-        port.subscribe_funds(T0, case['cash'])
+    if case.get('starting_cash'):
+        port = q.Portfolio(T0, starting_cash=case['cash'], portfolio_id='p', name='direct')
+        if port.cash != case['cash'] or (case['cash'] > 0 and len(port.history) != 1):
+            raise Violation('portfolio built with starting cash %r holds %r with %d history events' % (
+                case['cash'], port.cash, len(port.history)))
+    else:
+        port = q.Portfolio(T0, portfolio_id='p')
+        if case['cash'] > 0:
+            port.subscribe_funds(T0, case['cash'])
     net, last, closed = {}, {}, set()
     t = T0
     flags = set()
@@ -118,7 +124,7 @@ def programs(draw):
             ops.append(['fill', dt, a, qty, draw(gen.prices), comm])
         else:
             ops.append(['mark', dt, a, draw(gen.prices)])
-    return {'cash': draw(st.sampled_from([0.0, 1e4, 1e6])), 'na': na, 'ops': ops}
+    return {'cash': draw(st.sampled_from([0.0, 1e4, 1e6])), 'na': na, 'ops': ops, 'starting_cash': draw(st.booleans())}
 
 
 def new_harness():
